@@ -1187,6 +1187,34 @@ func (in *Interp) global(o types.Object, at ast.Node) *Cell {
 					}
 					c := &Cell{}
 					in.globals[o] = c
+					if len(vs.Values) == 1 && len(vs.Names) > 1 {
+						// var a, b = f(): one call initialises all the names
+						cells := make([]*Cell, len(vs.Names))
+						for k, nk := range vs.Names {
+							if k == i {
+								cells[k] = c
+								continue
+							}
+							cells[k] = &Cell{}
+							if ok := pk.TypesInfo.Defs[nk]; ok != nil {
+								in.globals[ok] = cells[k]
+							}
+						}
+						in.frames = append(in.frames, &frame{pkg: pk, env: map[types.Object]*Cell{}, fn: "init:" + n.Name})
+						saved := in.live
+						in.live = True
+						tv, isT := in.expr(vs.Values[0]).(Tuple)
+						in.live = saved
+						in.frames = in.frames[:len(in.frames)-1]
+						if !isT || len(tv) != len(cells) {
+							unsupported("multi-value initialiser of %s", n.Name)
+						}
+						for k := range cells {
+							cells[k].V = tv[k]
+						}
+						in.runInits(pk)
+						return c
+					}
 					if i < len(vs.Values) {
 						in.frames = append(in.frames, &frame{pkg: pk, env: map[types.Object]*Cell{}, fn: "init:" + n.Name})
 						saved := in.live
